@@ -24,6 +24,7 @@ import CtyModel.Lemmas.d04RefineNN
 import CtyModel.Lemmas.d08bUnmark
 import CtyModel.ConvertD08Env
 import CtyModel.Lemmas.OpsFnsTie
+import CtyModel.Lemmas.MarksFnsTie
 namespace CtyModel
 namespace C04
 open Value
@@ -445,6 +446,123 @@ theorem no_invention_generated (op : Op) (args : List Value) (hw : ArgsWF args) 
     (h : OpsFnsTie.genRun op args = .ok r) (m : String) (hm : m ∈ r.marksDeep) : ∃ a ∈ args, m ∈ a.marksDeep := by
   rw [OpsFnsTie.genRun_eq op args (fun a ha => OpsFnsTie.single_of_marksWF (hw a ha))] at h
   exact no_invention op args r h m hm
+
+/-! ## The same clauses about the REGENERATED marks API
+
+`Generated/MarksFns.lean` is written by `extract/translate_marks.go` from cty/marks.go on every check: every function
+of that file except `GoString`, statement by statement (`Mark`, `Unmark`, `Marks`, `WithMarks`, `WithSameMarks`,
+`HasMark`, `HasSameMarks`, `ValueMarks.Equal`, `NewValueMarks`, `UnmarkDeep`, `UnmarkDeepWithPaths`, `MarkWithPaths`
+with the two transformer types).  `Lemmas/MarksFnsTie.lean` proves each equal to the hand-written model the theorems
+above are about; the round-trip clauses are restated here about the generated definitions themselves.  `ord` is the
+order in which Go ranges over a `ValueMarks` map: any order that lists exactly the keys (`OrdOk`, every permutation). -/
+
+section Generated
+open Generated.MarksFns MarksFnsTie MarksGo
+
+/-- `unmark_mark` for the translated `Mark` and `Unmark`. -/
+theorem unmark_mark_generated {ord : Ord} (ho : OrdOk ord) (v : Value) (h : v.isMarked = false) (m : String) :
+    (Value_Mark ord v (.one m)).bind (Value_Unmark ord) = .ok (v, [m]) := by
+  have h0 : v.marks = [] := marks_of_not_marked h
+  rw [Mark_tie ho v (by rw [h0]; exact MSorted.nil) m]
+  show Value_Unmark ord (v.mark m) = _
+  rw [Unmark_tie ho _ (by
+    show MSorted (insertMark m v.marks)
+    exact insertMark_sorted (by rw [h0]; exact MSorted.nil)), unmark_mark v h m]
+
+/-- `unmark_mark_general` for the translated `Mark` and `Unmark` (canonical mark set on the receiver). -/
+theorem unmark_mark_general_generated {ord : Ord} (ho : OrdOk ord) (v : Value) (hc : MSorted v.marks) (m : String) :
+    (Value_Mark ord v (.one m)).bind (Value_Unmark ord) = .ok (v.unmark, insertMark m v.marks) := by
+  rw [Mark_tie ho v hc m]
+  show Value_Unmark ord (v.mark m) = _
+  rw [Unmark_tie ho _ (by show MSorted (insertMark m v.marks); exact insertMark_sorted hc), unmark_mark_general v m]
+
+/-- `Mark` refuses a `ValueMarks` as the mark (the panic of the source, read from the source). -/
+theorem mark_refuses_valueMarks_generated (ord : Ord) (v : Value) (ms : List String) :
+    (Value_Mark ord v (.set ms)).isPanic = true := rfl
+
+/-- `withMarks_unmark` for the translated `Unmark` and `WithMarks`: `v.WithMarks(marks)` of what `v.Unmark()` returned
+is `v` again. -/
+theorem withMarks_unmark_generated {ord : Ord} (ho : OrdOk ord) (v : Value) (hw : v.v.markerWF = true)
+    (hc : v.v.marksCanon) :
+    (Value_Unmark ord v).bind (fun q => Value_WithMarks ord q.1 [q.2]) = .ok v := by
+  have hs := msorted_marks_of_canon hc
+  rw [Unmark_tie ho v hs]
+  show Value_WithMarks ord v.unmarkPair.1 [v.unmarkPair.2] = _
+  rw [WithMarks_tie ho]
+  have h2 : MSorted v.unmarkPair.2 := by
+    unfold unmarkPair
+    split
+    · exact MSorted.nil
+    · exact hs
+  have : unionAllMarks [v.unmarkPair.2] = v.unmarkPair.2 := unionMarks_nil_right_sorted h2
+  simp only [withMarksV, List.length_cons, List.length_nil, this]
+  exact congrArg Res.ok (withMarks_unmark v hw hc)
+
+/-- `withSameMarks_marks` and `withSameMarks_value` for the translated `WithSameMarks`. -/
+theorem withSameMarks_generated {ord : Ord} (ho : OrdOk ord) (v : Value) (srcs : List Value) :
+    ∃ r, Value_WithSameMarks ord v srcs = .ok r ∧ r.unmark = v.unmark ∧
+      ∀ m, m ∈ r.marks ↔ m ∈ v.marks ∨ ∃ s ∈ srcs, m ∈ s.marks :=
+  ⟨_, WithSameMarks_tie ho v srcs, withSameMarks_value v srcs, fun m => withSameMarks_marks v srcs m⟩
+
+/-- `hasSameMarks_iff` for the translated `HasSameMarks` (and `ValueMarks.Equal`, which it calls). -/
+theorem hasSameMarks_iff_generated {ord : Ord} (ho : OrdOk ord) (a b : Value) (ha : a.v.markerWF = true)
+    (hb : b.v.markerWF = true) (hca : a.v.marksCanon) (hcb : b.v.marksCanon) :
+    Value_HasSameMarks ord a b = .ok true ↔ a.marks = b.marks := by
+  rw [HasSameMarks_tie ho, ← hasSameMarks_iff a b ha hb hca hcb]
+  constructor
+  · intro h; injection h
+  · intro h; rw [h]
+
+/-- `WithMarks` merges into the one marker layer: the translated method never nests a marker in a marker it built. -/
+theorem withMarks_one_layer_generated {ord : Ord} (ho : OrdOk ord) (v : Value) (mss : List (List String)) :
+    ∃ r, Value_WithMarks ord v mss = .ok r ∧ r.unmark = v.unmark :=
+  ⟨_, WithMarks_tie ho v mss, unmark_withMarksV v mss⟩
+
+/-- `unmarkDeepWithPaths_markWithPaths` for the translated `UnmarkDeepWithPaths` and `MarkWithPaths`, whose
+`TransformWithTransformer` is the hand-written transform model of Walk.lean (C19): on every value that model's
+theorems cover (`Walk.Good`) with canonical mark sets, for every set-iteration oracle that is a permutation and every
+pair of attribute orders, the records are exactly the marked positions and re-applying them restores the value. -/
+theorem unmarkDeepWithPaths_markWithPaths_generated {ord : Ord} (ho : OrdOk ord) {X : SetOracle} (hX : Walk.IterPerm X)
+    {σ σ' : Walk.Sched} (hσ : Walk.SchedOk σ) (hσ' : Walk.SchedOk σ') (v : Value) (hg : Walk.Good X v)
+    (hcan : ∀ r n, Walk.nodeAt X v r = some n → MSorted n.marks) :
+    ∃ pvm, Value_UnmarkDeepWithPaths ord X σ v = .ok (v.unmarkDeep, pvm) ∧
+      Value_MarkWithPaths ord X σ' v.unmarkDeep pvm = .ok v := by
+  obtain ⟨pvm, h1, _, _, h4⟩ := unmark_remark_generated ho hX hσ hσ' v hg hcan
+  exact ⟨pvm, h1, h4⟩
+
+/-- `unmarkDeep_clean` for the translated `UnmarkDeep`: nothing marked is left, and the returned set holds exactly
+the marks found at some position of the value. -/
+theorem unmarkDeep_clean_generated {ord : Ord} (ho : OrdOk ord) {X : SetOracle} (hX : Walk.IterPerm X)
+    {σ : Walk.Sched} (hσ : Walk.SchedOk σ) (v : Value) (hg : Walk.Good X v) :
+    ∃ ms, Value_UnmarkDeep ord X σ v = .ok (v.unmarkDeepPair.1, ms) ∧ v.unmarkDeepPair.1.containsMarked = false ∧
+      ∀ m, m ∈ ms ↔ ∃ r n, Walk.nodeAt X v r = some n ∧ m ∈ n.marks := by
+  obtain ⟨ms, h1, _, h3, h4⟩ := unmarkDeep_generated ho hX hσ v hg
+  exact ⟨ms, h1, h3, h4⟩
+
+/-- `unmarkDeepWithPaths_agrees_unmarkDeep` for the translated pair, for EVERY value, set-iteration oracle, attribute
+order and map order: `UnmarkDeep` returns the value `UnmarkDeepWithPaths` returns, and as marks the union of the mark
+sets in its records.  (Both are the hand-written `Walk.unmarkDeepWithPaths` — `MarksFnsTie.UnmarkDeepWithPaths_eq`,
+`UnmarkDeep_eq` — whose transform never fails of its own, `transformFuel_noErr`.) -/
+theorem unmarkDeepWithPaths_agrees_unmarkDeep_generated {ord : Ord} (ho : OrdOk ord) (X : SetOracle) (σ : Walk.Sched)
+    (v : Value) :
+    Value_UnmarkDeep ord X σ v =
+      (Value_UnmarkDeepWithPaths ord X σ v).map fun q => (q.1, unionAllMarks (q.2.map (·.2))) :=
+  UnmarkDeep_tie ho X σ v
+
+/-- The translated `ContainsMarked` (a closure over `Walk`, the hand-written walk of Walk.lean) decides whether any
+value inside carries a mark, on every value of the shape the API builds (`Walk.shapedV`). -/
+theorem containsMarked_generated (ord : Ord) {X : SetOracle} (hX : Walk.IterPerm X) (σ : Walk.Sched) (v : Value)
+    (hs : Walk.shapedV v = true) : Value_ContainsMarked ord X σ v = .ok v.containsMarked :=
+  ContainsMarked_tie ord hX σ v hs
+
+/-- the hypotheses are satisfiable: reversal is an admissible map order, and a marked value round-trips -/
+example : OrdOk List.reverse := ordOk_reverse
+example : (Value_Mark List.reverse ⟨.bool, .marked ["a", "c"] (.b true)⟩ (.one "b")).bind (Value_Unmark List.reverse) =
+    .ok (⟨.bool, .b true⟩, ["a", "b", "c"]) := by rfl
+example : Value_WithMarks List.reverse ⟨.bool, .marked ["a"] (.b true)⟩ [["c", "b"], []] =
+    .ok ⟨.bool, .marked ["a", "b", "c"] (.b true)⟩ := by rfl
+
+end Generated
 
 end C04
 end CtyModel
